@@ -38,7 +38,7 @@ type optsScenario struct {
 func init() { families["opts"] = runOpts }
 
 type layerLog struct {
-	mu                           sync.Mutex
+	mu                             sync.Mutex
 	enter, exit, sendpre, recvpost []string
 }
 
@@ -269,8 +269,9 @@ func runOpts(raw json.RawMessage, seed int64, rec *Rec) {
 		}
 	}
 	nsend := 2
+	armed := true
 	pv := func(at int) {
-		if s.Panic != nil && s.Panic.Value != "none" && s.Panic.At == at {
+		if armed && s.Panic != nil && s.Panic.Value != "none" && s.Panic.At == at {
 			panic(panicValue(s.Panic.Value))
 		}
 	}
@@ -342,51 +343,70 @@ func runOpts(raw json.RawMessage, seed int64, rec *Rec) {
 	ctx := context.Background()
 	var cerr error
 	got := 0
-	switch kind {
-	case "unary":
-		_, cerr = client.CallUnary(ctx, connect.NewRequest(&BV{Value: []byte{9}}))
-		if cerr == nil {
-			got = 1
+	// a client and a handler serve many calls: for two scenarios out of three the observed call is the second one
+	// (the first one is an ordinary call that does not panic; what it logged is discarded)
+	rounds := 1
+	if s.Tid%3 != 0 {
+		rounds = 2
+		armed = false
+	}
+	for round := 1; round <= rounds; round++ {
+		if round == rounds {
+			armed = true
+			log.mu.Lock()
+			log.enter, log.exit, log.sendpre, log.recvpost = nil, nil, nil, nil
+			log.mu.Unlock()
+			rl.mu.Lock()
+			rl.calls, rl.seen = 0, nil
+			rl.mu.Unlock()
+			cerr, got, aborted = nil, 0, false
 		}
-	case "client":
-		cs := client.CallClientStream(ctx)
-		_ = cs.Send(&BV{Value: []byte{9}})
-		_, cerr = cs.CloseAndReceive()
-		if cerr == nil {
-			got = 1
-		}
-	case "server":
-		ss, err := client.CallServerStream(ctx, connect.NewRequest(&BV{Value: []byte{9}}))
-		if err != nil {
-			cerr = err
-			break
-		}
-		for ss.Receive() {
-			got++
-		}
-		cerr = ss.Err()
-		_ = ss.Close()
-	default:
-		bs := client.CallBidiStream(ctx)
-		for i := 0; i < nsend; i++ {
-			if err := bs.Send(&BV{Value: []byte{byte(i + 1)}}); err != nil {
+		switch kind {
+		case "unary":
+			_, cerr = client.CallUnary(ctx, connect.NewRequest(&BV{Value: []byte{9}}))
+			if cerr == nil {
+				got = 1
+			}
+		case "client":
+			cs := client.CallClientStream(ctx)
+			_ = cs.Send(&BV{Value: []byte{9}})
+			_, cerr = cs.CloseAndReceive()
+			if cerr == nil {
+				got = 1
+			}
+		case "server":
+			ss, err := client.CallServerStream(ctx, connect.NewRequest(&BV{Value: []byte{9}}))
+			if err != nil {
+				cerr = err
 				break
 			}
-			if _, err := bs.Receive(); err != nil {
-				if !isEOF(err) {
+			for ss.Receive() {
+				got++
+			}
+			cerr = ss.Err()
+			_ = ss.Close()
+		default:
+			bs := client.CallBidiStream(ctx)
+			for i := 0; i < nsend; i++ {
+				if err := bs.Send(&BV{Value: []byte{byte(i + 1)}}); err != nil {
+					break
+				}
+				if _, err := bs.Receive(); err != nil {
+					if !isEOF(err) {
+						cerr = err
+					}
+					break
+				}
+				got++
+			}
+			_ = bs.CloseRequest()
+			if cerr == nil {
+				if _, err := bs.Receive(); err != nil && !isEOF(err) {
 					cerr = err
 				}
-				break
 			}
-			got++
+			_ = bs.CloseResponse()
 		}
-		_ = bs.CloseRequest()
-		if cerr == nil {
-			if _, err := bs.Receive(); err != nil && !isEOF(err) {
-				cerr = err
-			}
-		}
-		_ = bs.CloseResponse()
 	}
 	log.mu.Lock()
 	nzs := func(a []string) []string {
